@@ -32,6 +32,35 @@ CLAIMED['C20'] = dict(
           "and custom parsers are oracles; ASCII text only."),
     ref="DESIGN.md section 4 C20")
 
+HOOK_NOTE = ("Trusted: Coq kernel (theorems closed under the global context, no axioms); the hand-written model "
+             "coq/lib/HookMachine.v is tied to pyroll/core/hooks.py by the correspondence harness tools/xcheck/hookx.py (same random "
+             "cases run on real dynamically created HookHost classes and, by vm_compute, on the model: results of every operation, "
+             "invocation trace, remembered values, cycle flags). Python's MRO, inspect.signature, logging, generators are modelled, "
+             "not verified; recursion limit modelled as fuel.")
+CLAIMED['C01'] = dict(
+    technique="Coq refinement proof (six per-class stores vs abstract registration log) by induction over histories; model tied by differential runs",
+    text=("Theorems for every hierarchy and every history of register/remove/touch/evaluation operations: Hook.functions equals the "
+          "documented priority order computed from the registration log; scope is exactly the class and its subclasses; a removed "
+          "implementation is in no chain; touches change nothing; first non-None wins. Both repaired defects (cycle flag reset, "
+          "base-class wrapper) are kept as vm_compute-refuted witnesses on the pinned semantics. Wrapper composition for arbitrary "
+          "wrapper stacks is covered by the correspondence run and the independent oracle, not yet by a theorem (partial)."),
+    note=HOOK_NOTE, ref="DESIGN.md section 4 C01")
+CLAIMED['C02'] = dict(
+    technique="Coq proofs about the read state machine (explicit > remembered > computed) of the hook machine; model tied by differential runs",
+    text=("Theorems: explicit value first (callables invoked, falsy honoured), remembered second with no implementation consulted and "
+          "no state change, computed third and remembered only after the None/non-finite checks; assign/delete never touch the "
+          "remembered value; no evaluation ever changes an explicit value, a registration or a flag (induction over fuel and program). "
+          "Re-evaluation and root-hook evaluation are covered by the correspondence run and the lifecycle oracle (partial)."),
+    note=HOOK_NOTE, ref="DESIGN.md section 4 C02")
+CLAIMED['C07'] = dict(
+    technique="Coq invariant proofs by induction on fuel and program structure (frame, flags restored, outcome classes); model tied by differential runs",
+    text=("Theorems for arbitrary implementation programs, nesting and exception kinds: every evaluation leaves registrations, explicit "
+          "values and all cycle flags as it found them; flags are clear after every operation of any history; a computing read ends "
+          "in AttributeError for None and for fuel exhaustion (never RecursionError), ValueError for non-finite results, and a "
+          "failing read adds no remembered entry. 'As if it never happened' for later reads is checked on the implementation against "
+          "a failure-free twin (partial: not a theorem)."),
+    note=HOOK_NOTE, ref="DESIGN.md section 4 C07")
+
 NOT_YET = {}
 
 
